@@ -6,6 +6,7 @@
    of bytes the gzip probe consumes (probe) are universally quantified oracles; the directory
    order of filepath.Walk is the order of the entries in the tree. *)
 From Coq Require Import List NArith ZArith Arith Bool Permutation String.
+From RareV Require Import Gen.GenC06Skel Model.InputSkel.
 From RareV Require Import Base.Hex Model.Lines Model.Batch Model.Pipeline Model.Exit Model.Input Gen.GenC06
   Proofs.PipelineProof Proofs.PipelineEnd Proofs.InputWalk Proofs.InputProof Proofs.ExitProof Model.Skel Gen.GenSkel.
 Import ListNotations.
@@ -145,6 +146,14 @@ Proof. unfold script_reads_all. simpl. intros o H. vm_compute in H. inversion H;
    out.incErrors on the failure path itself (not in its deferred clean-up, which signals the wait group
    first), returns right after it, and reads nothing (the conditions of Model/Skel.v, see C01_skeleton) *)
 Theorem C06_open_failure_counted_before_done : open_files_ok skel_open_files = true.
+Proof. vm_compute. reflexivity. Qed.
+
+(* translator obligation for "each ... is opened and read exactly once per mention" / "without preventing
+   the other inputs from being completely processed" when there are more inputs than descriptors: in
+   every function of pkg/extractor/batchers that calls openFileToReader the input is closed when it has
+   been read - no `defer ….Close()` inside a loop of its own function (it would keep every input read so
+   far open until the loop is over), and every such function does close (Model/InputSkel.v) *)
+Theorem C06_inputs_closed_when_read : closes_per_input open_sites deferred_closes plain_closes = true.
 Proof. vm_compute. reflexivity. Qed.
 
 (* clause "`-` or no argument reads standard input under the name <stdin>": standard input is used
